@@ -11,6 +11,7 @@ CONSTANTS
   AllowRst = TRUE
   AllowTClose = TRUE
   AllowCRst = TRUE
+  Planned = FALSE
   Timeout = 2
   MaxNow = 12
   DrainMode = "raw"
